@@ -5,12 +5,14 @@ package gw
 import (
 	"bytes"
 	"fmt"
+	"io"
 	"net"
 	"os"
 	"os/exec"
 	"path/filepath"
 	"strconv"
 	"strings"
+	"sync/atomic"
 	"syscall"
 	"time"
 )
@@ -143,8 +145,8 @@ func (g *Gateway) launch() error {
 		cmd = exec.Command(g.Cfg.Bin, args...)
 	}
 	cmd.Env = append(os.Environ(), g.Cfg.Env...)
-	cmd.Stdout = g.Log
-	cmd.Stderr = g.Log
+	cmd.Stdout = envTee{g.Log}
+	cmd.Stderr = envTee{g.Log}
 	cmd.Dir = g.Cfg.Work
 	cmd.SysProcAttr = &syscall.SysProcAttr{Setpgid: true, Pdeathsig: syscall.SIGKILL}
 	if err := cmd.Start(); err != nil {
@@ -219,4 +221,34 @@ func (g *Gateway) Restart() error {
 		time.Sleep(50 * time.Millisecond) // the old socket may still be closing
 	}
 	return err
+}
+
+// ---------------------------------------------------------------- environment faults
+//
+// A gateway that logs ENOSPC was refused storage by the machine it runs on (observed in this sandbox under
+// load although the filesystem had plenty of free space). Its 500 answers then say nothing about the
+// property under test; the runner re-runs a check whose failures coincide with such a fault.
+
+var envFault atomic.Value // string: first offending log line
+
+type envTee struct{ w io.Writer }
+
+func (t envTee) Write(p []byte) (int, error) {
+	if i := bytes.Index(p, []byte("no space left on device")); i >= 0 && envFault.Load() == nil {
+		start := bytes.LastIndexByte(p[:i], '\n') + 1
+		end := len(p)
+		if j := bytes.IndexByte(p[i:], '\n'); j >= 0 {
+			end = i + j
+		}
+		envFault.Store(string(p[start:end]))
+	}
+	return t.w.Write(p)
+}
+
+// EnvFault returns the first gateway log line that reported ENOSPC during this harness run ("" = none).
+func EnvFault() string {
+	if v := envFault.Load(); v != nil {
+		return v.(string)
+	}
+	return ""
 }
